@@ -25,7 +25,7 @@ MODES = ['both-empty', 'left-empty', 'right-empty', 'left-ends-first-after-misma
          'both-end-on-match', 'left-ends-first-after-match', 'right-ends-first-after-match']
 OPS = ['join', 'leftjoin', 'rightjoin', 'outerjoin', 'lookupjoin', 'antijoin']
 REQUIRED = ['mode:' + m for m in MODES] + ['op:' + o for o in OPS] + ['op:crossjoin',
-            'none-key-left+right-empty', 'none-key-right+left-empty', 'ragged-input', 'natural-key', 'lkey!=rkey', 'compound-key', 'presorted', 'presorted-ragged']
+            'none-key-left+right-empty', 'none-key-right+left-empty', 'ragged-input', 'natural-key', 'lkey!=rkey', 'compound-key', 'presorted', 'presorted-ragged', 'key-by-index', 'key-index-0']
 
 
 def required(tier):
@@ -115,6 +115,25 @@ def cases(ctx):
         else:
             kw['lkey'] = lkn[0] if nkey == 1 else tuple(lkn)
             kw['rkey'] = rkn[0] if nkey == 1 else tuple(rkn)
+        if nkey == 1 and rng.random() < 0.12:
+            # the key as a field *index*: both key columns are moved to one position (index 0 included), whatever their names,
+            # and (sometimes) the sides also share a non-key field name, so that a natural join would be a different join
+            pos = rng.randrange(0, min(len(lhdr), len(rhdr)))
+            for hdr_, kn_, tbl_ in ((lhdr, lkn, left), (rhdr, rkn, right)):
+                cur = hdr_.index(kn_[0])
+                for r_ in tbl_:
+                    if cur < len(r_) and pos < len(r_):
+                        r_[cur], r_[pos] = r_[pos], r_[cur]
+                hdr_[cur], hdr_[pos] = hdr_[pos], hdr_[cur]
+            if rng.random() < 0.5 and len(lhdr) > 1 and len(rhdr) > 1:
+                li = [i for i in range(len(lhdr)) if i != pos][0]
+                ri = [i for i in range(len(rhdr)) if i != pos][0]
+                right[0][ri] = left[0][li]
+                rhdr[ri] = lhdr[li]
+            kw = {'key': pos} if rng.random() < 0.6 else {'lkey': pos, 'rkey': pos}
+            ragged = 0.0
+            left = [left[0]] + [r_ for r_ in left[1:] if len(r_) == len(left[0])]
+            right = [right[0]] + [r_ for r_ in right[1:] if len(r_) == len(right[0])]
         if op != 'antijoin':
             if rng.random() < 0.2:
                 kw['lprefix'] = 'l_'
@@ -177,6 +196,10 @@ def judge(case, ctx):
         ctx.seen('lkey!=rkey')
     if len(lk) > 1:
         ctx.seen('compound-key')
+    if any(isinstance(case[a_], int) for a_ in ('key', 'lkey', 'rkey')):
+        ctx.seen('key-by-index')
+        if case['key'] == 0 or case['lkey'] == 0:
+            ctx.seen('key-index-0')
     if any(len(r) != len(left[0]) for r in left[1:]) or any(len(r) != len(right[0]) for r in right[1:]):
         ctx.seen('ragged-input')
     if not rsq[1] and any(oracles.key_eq(k, (None,) * len(lk)) for k in lkeys):
